@@ -15,7 +15,18 @@ def check_c10(ctx):
     pin = os.path.join(ctx.work, "g_in.ndjson")
     pout = os.path.join(ctx.work, "g_obs.ndjson")
     core.write_ndjson(pin, r.replay)
-    core.run_harness(ctx, ["group", "--in", pin, "--out", pout])
+    # the standard definitions of the specification measure the totals of the bundled-converter sweep
+    import json
+    rc = core.run_tlc(ctx, "MC_Convert", "MC_Convert.cfg", workers=8, timeout=3000, want_replay=False)
+    std = None
+    for line in rc.printed:
+        if line.startswith('<<"STD", '):
+            std = json.loads(json.loads(line[len('<<"STD", '):].rstrip()[:-2]))
+    if std is None:
+        raise core.ToolError("MC_Convert did not print the standard definitions")
+    pstd = os.path.join(ctx.work, "std.json")
+    json.dump(std, open(pstd, "w"))
+    core.run_harness(ctx, ["group", "--in", pin, "--out", pout, "--std", pstd])
     obs = core.read_ndjson(pout)
     n, bad, _ = core.run_judge(ctx, "Trace_Group", pout)
     bad.sort(key=lambda b: len(obs[b[0] - 1]["ops"]))
@@ -23,6 +34,11 @@ def check_c10(ctx):
         x = obs[line - 1]
         ops = [(o["op"], o["g"], (o["q"]["lo"] / 4, o["q"]["hi"] / 4, o["q"]["unit"], o["q"]["txt"])) for o in x["ops"]]
         for c in names:
+            if x.get("kind") == "bundledfit":
+                ctx.violation("group:" + c + ":" + x["unit"], f"C10 clause {c}: totals in {x['unit']} with the bundled converter: {x['bad']} of {x['cases']} "
+                                                              f"two-halves totals change the amount after fit (first: {x['first']}), {x['panics']} panics",
+                              dict(kind="group", clause=c, unit=x["unit"], first=x["first"]))
+                continue
             ctx.violation("group:" + c, f"C10 clause {c}: operations {ops} -> observed {x['obs']['steps'][-1:] if x['obs'].get('steps') else x['obs']}",
                           dict(kind="group", clause=c, ops=x["ops"], obs=x["obs"]))
     nseq = len(obs)
@@ -50,7 +66,8 @@ def check_c10(ctx):
                 "physical quantities and both systems, unknown units, unitless, ranges, text values with and without unit) "
                 "into two groups followed by a merge, enumerated by TLC with Conservation checked as an invariant of CookGroup, "
                 "replayed on the real GroupedQuantity with the model converter (small integer ratios: totals are exact); "
-                "totals per class are compared after every step and after fit. (b) valid CookDoc recipes (reference kernel and "
+                "totals per class are compared after every step and after fit; every bundled unit x 135 numbers / ranges added in two "
+                "halves and fitted (fractions on), measured with the standard definitions. (b) valid CookDoc recipes (reference kernel and "
                 "random walks) through group_ingredients, IngredientList (once, twice) and categorize with an aisle file whose "
                 "synonyms collide with listed names; expected totals are recomputed by TLC from the recipe's own quantities. "
                 "non-trivial = operation sequences + recipes with at least one reference")
@@ -69,6 +86,10 @@ def check_c10(ctx):
 def replay_c10(ctx, case):
     core.build_harness()
     c = case["case"]
+    if c["kind"] == "group" and "ops" not in c:
+        print("re-running C10 (the case is one unit of the bundled two-halves sweep):", c.get("unit"), c.get("first"))
+        check_c10(ctx)
+        return ctx.finish()
     if c["kind"] == "group":
         pin = os.path.join(ctx.work, "g_in.ndjson")
         pout = os.path.join(ctx.work, "g_obs.ndjson")
